@@ -32,7 +32,8 @@ RULE = ("cases = (expression: 1-3 operands over 1-3 index variables, every varia
         "the result: format U on any subset of the operand / output ranks (Tensor.setFormat, or a free fiber's own rank "
         "attributes), per-operand declared shapes larger than needed, fibers built with default 7 inside tensors of default "
         "0, values written as floats / bools, operand objects already used by an earlier run, the program executed twice "
-        "into the same output (2 x dense), coordinates 0, 9, 10, 11, 100). small scope "
+        "into the same output (2 x dense), coordinates 0, 9, 10, 11, 100; NON-INTEGRAL operand values v/4 (exact dyadic "
+        "floats) compared through multilinearity: result * 4**k = the integer result on the values v). small scope "
         "(seed-independent): every expression shape x every loop order x every style on a fixed operand set, and "
         "every pair of leaf fibers over 3 coordinates x {absent, 0, 1, -1} for dot / element-wise / accumulate; every "
         "triple of leaf fibers over 2 coordinates for the right-nested / hoisted three-factor product; every 2-row 0/1 "
@@ -138,7 +139,7 @@ def _widen(rng, c):
         var["reps"] = 2
     if r() < 0.15:
         var["warm"] = True
-    vk = rng.choice(["int"] * 4 + ["float", "bool"])
+    vk = rng.choice(["int"] * 4 + ["float", "bool", "quarter", "quarter"])
     if vk != "int":
         var["vkind"] = vk
     if not c["tiles"] and all(len(o["ranks"]) == 1 for o in c["ops"]) and r() < 0.3:
@@ -277,6 +278,30 @@ def gen(seed, tier):
                 for out in ([], [0]):
                     c = mk_case(1, [[0], [0]], out, [0], [], style, 2, [a, b], "reuse-exh")
                     c["var"] = {"reps": 2} if (ia + ib + si) % 2 else {"warm": True}
+                    yield c
+    # NON-INTEGRAL values: the operands hold v/4 (exact dyadic floats); a k-operand expression is
+    # multilinear, so result * 4**k must be the integer result on the values v (partial sums like 0.25, 0.75)
+    qf = list(H.all_leaf_fibers(2, [1, 3]))
+    for ia, a in enumerate(qf):
+        for ib, b in enumerate(qf):
+            for si, style in enumerate(("and", "tf", "lf", "lff")):
+                for out in ([], [0]):
+                    c = mk_case(1, [[0], [0]], out, [0], [], style, 2, [a, b], "frac-exh")
+                    c["var"] = {"vkind": "quarter"}
+                    yield c
+    qA = [[[0, [[0, 1], [1, 2]]], [1, [[1, 3]]], [2, [[0, 1], [2, 1]]]],
+          [[0, [[2, 1]]], [2, [[0, 2], [1, 1], [2, 3]]]]]
+    qb = [[[0, 1], [1, 3], [2, 2]], [[1, 1], [2, -3]]]
+    for A in qA:
+        for b in qb:
+            for order, tiles in (([0, 2], []), ([2, 0], []), ([3, 0, 2], [[1, 1]]), ([3, 0, 2], [[1, 2]]),
+                                 ([0, 3, 2], [[1, 3]]), ([1, 2, 0], [[0, 2]])):
+                for style in ("and", "lf"):
+                    c = mk_case(2, [[0, 1], [1]], [0], order, tiles, style, 3, [A, b], "frac-exh")
+                    c["var"] = {"vkind": "quarter"}
+                    yield c
+                    c = mk_case(2, [[0, 1], [1]], [], order, tiles, style, 3, [A, b], "frac-exh")
+                    c["var"] = {"vkind": "quarter", "reps": 2}
                     yield c
     # --- 3. named kernels: all loop orders, every tiling of one variable with every step, all placements
     rng = random.Random(seed)
@@ -425,6 +450,8 @@ def _conv(v, vk):
     """value kinds: the same integer written as a float (exact) or, for 0/1, as a bool"""
     if vk == "float":
         return float(v)
+    if vk == "quarter":         # non-integral values, exact in binary floating point: v / 4
+        return v / 4.0
     if vk == "bool" and v in (0, 1):
         return bool(v)
     return v
@@ -437,13 +464,19 @@ def _build(tree, depth, vk, fdef):
     return F([c for c, _ in tree], [_build(s, depth - 1, vk, fdef) for _, s in tree], default=fdef)
 
 
-def _canon(snap):
-    """integral floats (results of exact float arithmetic) read as the integers they are"""
-    if isinstance(snap, list):
-        return [_canon(x) for x in snap]
+def _canon(snap, scale=1):
+    """leaf values times `scale`; integral floats (results of exact float arithmetic) read as the
+    integers they are.  With operand values v/4 a k-operand expression, being multilinear, yields
+    (integer result on the values v) / 4**k exactly: scale = 4**k for the output, 4 for an operand."""
+    if isinstance(snap, list):          # a fiber: [[coordinate, payload], ...]
+        return [[e[0], _canon(e[1], scale)] for e in snap]
     if isinstance(snap, dict) and set(snap) == {"float"}:
-        x = float.fromhex(snap["float"])
-        return int(x) if x == int(x) else snap
+        x = float.fromhex(snap["float"]) * scale
+        return int(x) if x == int(x) else {"float": x.hex()}
+    if isinstance(snap, bool):
+        return int(snap) * scale
+    if isinstance(snap, int):
+        return snap * scale
     return snap
 
 
@@ -516,7 +549,9 @@ def run(case):
         for _ in range(var.get("reps", 1)):     # reps = 2: accumulate a second time into the same output
             env["kernel"](Z, *tensors)
         root = Z.getRoot()
-        case["impl"] = {"z": _canon(H.snapshot(root)), "ops": [_canon(x) for x in pre]}
+        q = var.get("vkind") == "quarter"
+        case["impl"] = {"z": _canon(H.snapshot(root), 4 ** len(tensors) if q else 1),
+                        "ops": [_canon(x, 4 if q else 1) for x in pre]}
         side["operands_unchanged"] = pre == [H.snapshot(T.getRoot()) for T in tensors]
     except Exception as e:      # a crash of a legal program is an observation
         case["impl"] = {"z": None, "ops": []}
@@ -582,7 +617,7 @@ def extra_evidence(results):
         e = (c["nvars"], tuple(tuple(sorted(o["ranks"])) for o in c["ops"]), tuple(c["out"]))
         exprs.add(e)
         progs.add((e, tuple(c["order"]), tuple(tuple(t) for t in c["tiles"]), c["style"]))
-        b = c["tag"] if c["tag"] in ("shape", "dot-exh", "ew-exh", "cancel-exh", "nest-exh", "hoist-exh", "estim-exh", "fmt-exh", "reuse-exh", "random") else "named"
+        b = c["tag"] if c["tag"] in ("shape", "dot-exh", "ew-exh", "cancel-exh", "nest-exh", "hoist-exh", "estim-exh", "fmt-exh", "reuse-exh", "frac-exh", "random") else "named"
         blocks[b] = blocks.get(b, 0) + 1
     return {"distinct_expressions": len(exprs), "distinct_programs": len(progs), "generator_blocks": blocks}
 
